@@ -15,6 +15,7 @@ SELF = [{}, {}, {"A": [["post_fifo", "B"]]}, {"A": [["post_lifo", "C"]]}]
 
 def make_cfg(rng, caps=(2, 3, 5, 8)):
   cfg = {"cap": rng.choice(caps), "progs": rng.choice(PROGS), "selfposts": rng.choice(SELF), "spied": rng.random() < 0.3}
+  cfg["live"] = cfg["spied"] and rng.random() < 0.5
   return cfg
 
 
@@ -29,11 +30,13 @@ def make_policy(rng, kind, fair_after=400):
 
 
 def _work(args):
-  seed, lo, hi, kinds, caps, guided = args
+  seed, lo, hi, kinds, caps, guided, force = args
   out = []
   for tid in range(lo, hi):
     rng = random.Random((seed << 22) ^ (tid * 2654435761 % (1 << 32)))
     cfg = make_cfg(rng, caps)
+    if force == "c18":      # the same programs un-decorated, decorated, decorated with live output
+      cfg["spied"], cfg["live"] = (tid % 3 != 0), (tid % 3 == 2)
     kind = kinds[tid % len(kinds)]
     if kind == "guided" and guided:
       g = guided[tid % len(guided)]
@@ -55,11 +58,11 @@ def load_guided():
   return []
 
 
-def run_batch(n, kinds=("random", "pct", "random", "guided"), caps=(2, 3, 5, 8), procs=16):
+def run_batch(n, kinds=("random", "pct", "random", "guided"), caps=(2, 3, 5, 8), procs=16, force=None):
   seed = common.seed()
   guided = load_guided()
   chunk = max(1, (n + procs * 4 - 1) // (procs * 4))
-  jobs = [(seed, lo, min(n, lo + chunk), kinds, caps, guided) for lo in range(0, n, chunk)]
+  jobs = [(seed, lo, min(n, lo + chunk), kinds, caps, guided, force) for lo in range(0, n, chunk)]
   with mp.get_context("fork").Pool(procs) as pool:
     res = pool.map(_work, jobs)
   return [x for part in res for x in part]
